@@ -20,6 +20,7 @@ UALL = ["short", "int", "long", "llong", "uint", "ulong", "bint", "float", "doub
         "mvi", "mvl", "mvf", "mvd", "mvd2"]
 UNUM = ["short", "int", "long", "llong", "uint", "ulong", "bint", "float", "double", "fc", "dc", "object"]
 UNUMQ = [t for t in UNUM if t != "uint"]
+UTHOR3 = UNUM + ["list", "mvd", "mvi"]
 
 # argument kind -> Python expression evaluated in the driver (np, array, MyInt, MyFloat, mkcymv)
 ARGS = {
@@ -249,15 +250,15 @@ ANY = {"k": "any", "ty": [], "val": [], "e": ""}
 
 
 def p_convout(sig, par, vals):
-    cs = []
-    for p, v in zip(par, vals):
-        c = p_conv(sig[p - 1], v)
-        if c == "nodemand":
-            return ANY
-        if c not in ("ok", "tyonly"):
-            return _exc(c)
-        cs.append(c)
-    return _ret([sig[p - 1] for p in par], [c == "ok" for c in cs])
+    """all conversions fine -> return; a conversion without demand, or two different failures (C conversions run
+    before the type tests of object-typed parameters) -> no demand; else the agreed exception"""
+    cs = [p_conv(sig[p - 1], v) for p, v in zip(par, vals)]
+    bad = {c for c in cs if c not in ("ok", "tyonly")}
+    if not bad:
+        return _ret([sig[p - 1] for p in par], [c == "ok" for c in cs])
+    if "nodemand" in bad or len(bad) > 1:
+        return ANY
+    return _exc(bad.pop())
 
 
 def p_want(d, op, key, vals):
